@@ -94,3 +94,9 @@ Print Assumptions C16_output_dirs_premises_example.
 Theorem C16_step_prepared : forall fs cwd outs rsp fs', prepare_step fs cwd outs rsp = (None, fs') -> (forall o d, In o outs -> lp_parent (path_new o) = Some d -> is_dir_l fs' cwd d = true) /\ (forall n c, rsp = Some (n, c) -> read_l fs' cwd (path_new n) = Some (KFile c)) /\ (forall q k, lookup fs q = Some k -> lookup fs' q = Some k \/ exists n c, rsp = Some (n, c) /\ k <> KDir /\ lookup fs' q = Some (KFile c)).
 Proof. exact prepare_step_ready. Qed.
 Print Assumptions C16_step_prepared.
+
+(* several steps: preparing a later step (successfully or not) leaves the directories of an earlier
+   one in place *)
+Theorem C16_steps_prepared_stay_prepared : forall fs cwd outs1 rsp1 fs1 outs2 rsp2 e fs2, prepare_step fs cwd outs1 rsp1 = (None, fs1) -> prepare_step fs1 cwd outs2 rsp2 = (e, fs2) -> forall o d, In o outs1 -> lp_parent (path_new o) = Some d -> is_dir_l fs2 cwd d = true.
+Proof. exact prepare_steps_all_ready. Qed.
+Print Assumptions C16_steps_prepared_stay_prepared.
